@@ -559,6 +559,16 @@ class Interp:
         idx = self.eval(node.slice, env)
         return self.lib.getitem(self, obj, idx, node)
 
+    def e_Yield(self, node: ast.Yield, env: Env):
+        """`yield v` inside an (async) generator body: the contract decides how the consumer resumes it."""
+        v = self.eval(node.value, env) if node.value is not None else V.VNone
+        self.st.events.append(("yield", v))
+        c = self.st.contract
+        if c is not None and hasattr(c, "on_yield"):
+            r = c.on_yield(self, v, node)
+            return r if r is not None else V.VNone
+        raise Unsupported("yield outside a contract that defines the consumer")
+
     def e_Await(self, node: ast.Await, env: Env):
         v = self.eval(node.value, env)
         return self.do_await(v, node)
@@ -1122,6 +1132,12 @@ class Interp:
 
     def s_For(self, node: ast.For, env: Env):
         self.engine.loop(self, node, env)
+
+    def s_AsyncFor(self, node: ast.AsyncFor, env: Env):
+        c = self.st.contract
+        if c is not None and hasattr(c, "async_for"):
+            return c.async_for(self, node, env)
+        raise Unsupported("async for outside a contract that defines the iterator")
 
     def s_With(self, node: ast.With, env: Env):
         self.with_stmt(node, env, False)
